@@ -1152,6 +1152,11 @@ func (g *Gen) analyseLoopWrites(li *loopInfo) *loopWrites {
 				}
 				note(mods, "?")
 				touch("!frontier")
+				if k := calleeKey(x.Common()); k != "" && strings.Contains(k, repoMod) {
+					tag := "N!" + shortName(k)
+					g.sc.regTag(tag, "Int")
+					touch(tag).unknown = true
+				}
 			}
 		}
 	}
